@@ -1114,6 +1114,10 @@ package redis
 //@   callpre Dial @the-connection-is-made-while-the-client-table-is-locked held(u.clientsMu)
 //@   callpre addClientLocked @the-client-is-registered-while-the-table-is-still-locked held(u.clientsMu)
 //@   callpre newClient @connections-share-the-config-object-of-the-upstream arg1 == u.cfg
+//@   callpre withRedirectionCb @moved-and-ask-replies-of-the-connection-are-followed-by-this-upstream fnis(arg0, "handleRedirection$bound")
+//@   callpre withClusterDownCb @clusterdown-replies-of-the-connection-are-handled-by-this-upstream fnis(arg0, "handleClusterDown$bound")
+//@   callpre newClient @the-key-counter-and-both-callbacks-are-installed len(arg3) == 3
+//@   alsoprop C04 C02 C19 : moved-and-ask-replies-of-the-connection-are-followed-by-this-upstream clusterdown-replies-of-the-connection-are-handled-by-this-upstream the-key-counter-and-both-callbacks-are-installed
 //@   alsoprop C13 C14 : connections-share-the-config-object-of-the-upstream
 //@   requires clientsok(u)
 //@   assume u.cfg != nil && u.cfg.ConnectTimeout != nil && u.hkc != nil
@@ -1263,6 +1267,9 @@ package redis
 //@   requires @handlers-wellformed forall k string :: has(p.cmdHdlrs, k) ==> p.cmdHdlrs[k] != nil
 //@   assume !typeis(conn, "*Reader")
 //@   modifies all
+//@   onlycalls newSession Serve
+//@   callpre newSession @the-session-runs-on-the-accepted-connection-as-it-is arg0 == p && arg1 == conn
+//@   callpre Serve @the-session-just-built-is-served arg0 == s
 
 // ---- C08/C09: the redis processor hands endpoint changes to its upstream unchanged and stops both halves ------
 
